@@ -42,8 +42,15 @@ def peptides_event(pp, tid, A, rule, mc, semi, conserve, rnd, generator=None):
     text = anngen.render(A)
     rx = render_rule(rule) if rule else ""
 
+    # ONE protein object for every object-input digest of this event; it has already been weighed and composed
+    # (the usual first questions about a protein) - neither may matter for what a digest returns
+    shared = anngen.build(pp, A)
+    call(lambda: pp.mass(shared, charge=0))
+    call(lambda: pp.comp(shared, estimate_delta=True))
+    call(lambda: pp.condense_static_mods(shared))
+
     def digest(rt):
-        src = text if rnd.random() < 0.5 else anngen.build(pp, A)
+        src = text if rnd.random() < 0.5 else shared
         if generator:
             return list(getattr(pp, generator)(src, return_type=rt))
         return list(pp.digest(src, rx, missed_cleavages=mc, semi=semi, return_type=rt))
